@@ -7,7 +7,7 @@ from pathlib import Path
 V = Path(__file__).resolve().parent.parent
 res = json.loads((V / "seeded" / "RESULTS.json").read_text())
 names = sorted(d.name for d in (V / "seeded").iterdir() if d.is_dir())
-cols = [f"m{i}" for i in range(7, 14)]
+cols = [f"m{i}" for i in range(7, 15)]
 
 
 def cell(r):
@@ -40,7 +40,7 @@ neut = [n for n in names if res.get(n, {}).get("neutralised")]
 caught = [n for n in names if res.get(n, {}).get("exit") == 1]
 nofail = [n for n in caught if res[n].get("no_failing_input")]
 missed = [n for n in names if n not in caught and n not in neut]
-sentence = (f"Across all eight rounds: {total} seeds, {len(caught)} caught by their property's own quick check on the final tree, "
+sentence = (f"Across all nine rounds: {total} seeds, {len(caught)} caught by their property's own quick check on the final tree, "
             f"{len(neut)} neutralised by a later repair of `/repo` ({', '.join(neut) or 'none'}); {len(nofail)} of the {len(caught)} are caught by a broken "
             f"correspondence or proof obligation without a concrete failing input ({', '.join(nofail) or 'none'})"
             + (f"; NOT caught: {', '.join(missed)}" if missed else "") + ".")
